@@ -68,6 +68,13 @@ class SchedDict:
     def snapshot(self):
         return {k: pickle.loads(v) for k, v in self._d.items()}
 
+    # a proxy to a server-side dict: copying the object that holds it (fork) still refers to the same dict
+    def __deepcopy__(self, memo):
+        return self
+
+    def __copy__(self):
+        return self
+
 
 class _Workers:
     """Persistent worker threads (one set per process): creating fresh threads for every schedule is the dominant cost
